@@ -442,7 +442,9 @@ def _zk2fs_ext(ctx):
     """Beyond C12: the other ZooKeeper -> file system mirror of the code base (zksync.zk2fs.Zk2Fs) against
     specs/cell/ZkMirror.tla.  Conformance class DRIFT; a failure of this extension never decides C12."""
     try:
-        return zkmirror_driver.run_ext(ctx)
+        out = zkmirror_driver.run_ext(ctx)
+        out['two_levels'] = zkmirror_driver.run_ext2(ctx)
+        return out
     except Exception as e:  # pylint: disable=broad-except
         ctx.log('ext zk2fs not evaluated: %s: %s' % (type(e).__name__, str(e)[:300]))
         return dict(error='%s: %s' % (type(e).__name__, str(e)[:300]))
